@@ -12,6 +12,7 @@ From Borno Require Import Cli.
 From Borno Require Import EvalInv.
 From Borno Require Import EvalFrame.
 From Borno Require Import HeapLaws.
+From Borno Require Import ScenarioExamples.
 
 (** after o.k = v, o.k reads v *)
 Theorem C12_assoc_sorted_put_same :
@@ -118,3 +119,11 @@ Theorem C12_get_set_obj_other :
          l' <> l -> get_obj l' (set_obj l ps s) = get_obj l' s.
 Proof. exact (@get_set_obj_other). Qed.
 Print Assumptions C12_get_set_obj_other.
+
+(** write, delete, sorted and aligned listings on a concrete program, evaluated inside the kernel *)
+Theorem C12_scenario_object_listing :
+  transcript src_object_listing =
+         Some
+           ([[91; 97; 32; 99; 93]; [91; 49; 32; 51; 93]; [109; 97; 112; 91; 97; 58; 49; 32; 99; 58; 51; 93]], 0).
+Proof. exact (@scenario_object_listing). Qed.
+Print Assumptions C12_scenario_object_listing.
